@@ -61,6 +61,21 @@ CLAIMED = {
   text="Thin by design and said so: decides that the capture/replay code handles every token kind, in order, with matching ends — the decision table of UnmarshalXML over every token sequence within the bound equals a reference parser (recursive capture, one CopyToken child per other token, stale receiver state discarded, read errors returned), MarshalXML and the TokenReader replay start, children in order and End() of the same start for every small tree, Token always makes progress and EOF is sticky, and Decode reads from the value's own reader. The namespace behaviour the statement is mostly about lives in encoding/xml's encoder and is NOT decided.",
   note="Trusted: go/ssa; the model of xml.Decoder.Token as an arbitrary token sequence and of xml.CopyToken as a same-kind copy. Bounded token count / tree size.",
   ref="DESIGN.md §3 C15"),
+ "C01": dict(
+  technique="static analysis: decision tables and fault exploration by abstract interpretation of the whole file server's go/ssa (typed abstract OS errors), plus structural rules",
+  text="Decides the structural part only, not the equivalence with the resource-tree model: the dispatch and success-code table, the COPY/MOVE/PROPFIND header tables, the adapter's option polarity and code-decided refusals, and, by exploring webdav.(*Handler).ServeHTTP with LocalFileSystem bound over every outcome of every OS call (resource states and errno classes as typed abstract errors), the status that reaches the client, compared with the RFC 4918 scenario table; plus two structural conditions of COPY/MOVE (the Walk callback addresses effects through its path parameter; source and destination are compared). Known defects of the pinned tree (status mapping D9, COPY/MOVE structure D10) are listed in known_findings.json. Does not decide the tree after a successful request, bodies/headers of GET/PROPFIND, nor request sequences.",
+  note="Trusted: go/ssa; the interpreter's models of os, path/filepath and net/http calls and the errno classes each call can produce (checker/p_fs.go); one resource plus at most one member per directory.",
+  ref="DESIGN.md §3 C01, Appendix A"),
+ "C02": dict(
+  technique="static analysis: trace property over the abstract fault exploration of the file server (go/ssa interpretation) and a dominator rule for preconditions",
+  text="Decides the necessary ordering condition only: in the exploration of the whole file server over every outcome of every OS call, no run answers 4xx/5xx after a destructive call (create/truncate, remove, rename, mkdir) has succeeded; and the If-Match/If-None-Match check and every sanitiser check dominate the first destructive call of each LocalFileSystem method. The pinned tree's violations (COPY/MOVE remove the destination first and copy without staging, PUT truncates before reading the body: D10) are listed as known findings, keyed by (method, first effect, failing call), so any other ordering violation is still reported. Does not decide what a partially failed OS call leaves behind nor cancellation timing.",
+  note="Trusted: go/ssa; OS-call models; a destructive call that fails leaves no effect (false for the non-atomic RemoveAll, stated).",
+  ref="DESIGN.md §3 C02"),
+ "C17": dict(
+  technique="static analysis: taint (host-path bit on abstract strings) through an abstract interpretation of the whole file server's go/ssa with typed abstract OS errors",
+  text="Decides the property over the explored domain: for every method, every resource state and every outcome of every OS call the file server makes, nothing written to the ResponseWriter (error text, header values, content name) mentions the host path; the Error() texts of *fs.PathError/*os.LinkError carry their paths and errFromOS is analysed, not assumed. Reported hrefs are relative by C03.hrefs.",
+  note="Trusted: go/ssa; the Error() formats of the standard OS error types; the OS-call models (checker/p_fs.go).",
+  ref="DESIGN.md §3 C17"),
 }
 
 def main():
